@@ -143,10 +143,19 @@ pub fn expand_args(line: &str, args: &[String]) -> (r: String) ensures r@ == spe
 pub fn vx_args_tail(args: &Vec<String>) -> (r: &[String]) requires args@.len() >= 1 ensures r@ == args@.skip(1) { &args[1..] }
 #[verifier::external_body]
 pub fn run_command_line(sh: &mut Shell, line: &str, tty: bool, capture: bool) -> (r: Vec<CommandResult>) { unimplemented!() }
+// the stand-ins of the runners a body hands its statements to record, themselves, what they were given (C14: the line / the node, and for an `if` the in_loop flag)
 #[verifier::external_body]
-pub fn run_exp_if(sh: &mut Shell, pair_if: VxPair, args: &Vec<String>, in_loop: bool, capture: bool) -> (r: (Vec<CommandResult>, bool, bool)) { unimplemented!() }
+pub fn run_command_line_ev(sh: &mut Shell, line: &str, tty: bool, capture: bool, Tracked(lg): Tracked<&mut RunLog>) -> (r: Vec<CommandResult>)
+    ensures final(lg).evs == old(lg).evs.push(Ev::Cmd(line@)), final(lg).started == old(lg).started, final(lg).checks == old(lg).checks, final(lg).ifs == old(lg).ifs, final(lg).in_loop == old(lg).in_loop, final(lg).node == old(lg).node, final(lg).diagnosed == old(lg).diagnosed
+{ unimplemented!() }
 #[verifier::external_body]
-pub fn run_exp_for(sh: &mut Shell, pair_for: VxPair, args: &Vec<String>, capture: bool) -> (r: Vec<CommandResult>) { unimplemented!() }
+pub fn run_exp_if(sh: &mut Shell, pair_if: VxPair, args: &Vec<String>, in_loop: bool, capture: bool, Tracked(lg): Tracked<&mut RunLog>) -> (r: (Vec<CommandResult>, bool, bool))
+    ensures final(lg).evs == old(lg).evs.push(Ev::If(pair_if, in_loop)), final(lg).started == old(lg).started, final(lg).checks == old(lg).checks, final(lg).ifs == old(lg).ifs, final(lg).in_loop == old(lg).in_loop, final(lg).node == old(lg).node, final(lg).diagnosed == old(lg).diagnosed
+{ unimplemented!() }
+#[verifier::external_body]
+pub fn run_exp_for(sh: &mut Shell, pair_for: VxPair, args: &Vec<String>, capture: bool, Tracked(lg): Tracked<&mut RunLog>) -> (r: Vec<CommandResult>)
+    ensures final(lg).evs == old(lg).evs.push(Ev::For(pair_for)), final(lg).started == old(lg).started, final(lg).checks == old(lg).checks, final(lg).ifs == old(lg).ifs, final(lg).in_loop == old(lg).in_loop, final(lg).node == old(lg).node, final(lg).diagnosed == old(lg).diagnosed
+{ unimplemented!() }
 
 // ---- run_exp_if: the branches are tried in the order they are written, up to and including the first whose test passes ----
 // per branch tried: (its test passed, it met `continue`, it met `break`)
@@ -345,7 +354,7 @@ RW = [
 stopped_by_error = Fn(S, 'stopped_by_error', ret='r', pre_rewrites=RW,
     ensures=[('C15.stop_rule.last_result_failed_and_set_e_is_on', 'r == stop_spec(cr_list@, *sh)')])
 
-run_exp = Fn(S, 'run_exp', ret='r', pre_rewrites=RW,
+run_exp = Fn(S, 'run_exp', ret='r', pre_rewrites=RW + [Rw('run_command_line(', 'run_command_line_ev(', rule='R0', why='the stand-in of run_command_line that records the line it is given')],
     add_params='Tracked(lg): Tracked<&mut RunLog>',
     requires=[('C05.pre.script.args_start_with_the_script_or_function_name', 'args@.len() >= 1'),
               ('C15.pre.run_exp.fresh_log', 'old(lg).started == 0 && old(lg).checks.len() == 0 && old(lg).evs.len() == 0 && old(lg).ifs.len() == 0')],
@@ -379,16 +388,13 @@ run_exp = Fn(S, 'run_exp', ret='r', pre_rewrites=RW,
                                               '&& lg.evs == evs_upto(__v0@, __i0 as int, in_loop, args@)'),
         ('C14.inv.run_exp.nobody_asked_to_leave_so_far', 'forall|k: int| 0 <= k < __i0 ==> exit_none(lg.ifs, in_loop, #[trigger] __v0@[k], k)'),
     ])},
-    ghost_args={'run_exp_while': 'Tracked(&mut lgw), Tracked(&mut wlw)'},
+    ghost_args={'run_exp_while': 'Tracked(&mut lgw), Tracked(&mut wlw)', 'run_command_line_ev': 'Tracked(lg)', 'run_exp_if': 'Tracked(lg)', 'run_exp_for': 'Tracked(lg)'},
     hints={'fn-entry': 'RAW: let ghost mut g_all: Seq<CommandResult> = Seq::empty(); proof { note_entry(lg, pair_in, in_loop); }',
-           'after-call:run_command_line': 'g_all = g_all + _cr_list@;', 'after-call:run_exp_if': 'g_all = g_all + _cr_list@; note_if(lg, _cont, _brk);',
-           'after-call:run_exp_for': 'g_all = g_all + _cr_list@;', 'after-call:run_exp_while': 'g_all = g_all + _cr_list@;',
-           'before-call:run_command_line': 'note_ev(lg, Ev::Cmd(line_new@));',
-           'before-call:run_exp_if': 'note_ev(lg, Ev::If(pair, in_loop));',
-           'before-call:run_exp_for': 'note_ev(lg, Ev::For(pair));',
+           'after-call:run_command_line_ev': 'g_all = g_all + _cr_list@;', 'after-call:run_exp_if': 'g_all = g_all + _cr_list@; note_if(lg, _cont, _brk);',
+           'after-call:run_exp_for': 'g_all = g_all + _cr_list@;', 'after-call:run_exp_while': 'g_all = g_all + _cr_list@; note_ev(lg, Ev::While(lgw.node));',
            'before-text-all:return (cr_list,': 'LABEL:C11+C15.run_exp.what_is_returned_holds_the_results_of_every_statement_run: assert(cr_list@ == g_all);',
            'loop-0-body-entry': 'note_start(lg);',
-           'before-call:run_exp_while': 'RAW: let tracked mut lgw = new_log(); let tracked mut wlw = new_iflog(); proof { note_ev(lg, Ev::While(pair)); }',
+           'before-call:run_exp_while': 'RAW: let tracked mut lgw = new_log(); let tracked mut wlw = new_iflog();',
            'before-text:if stopped_by_error(sh, &cr_list) {': 'note_check(lg, stop_spec(cr_list@, *sh));'},
 )
 
@@ -398,7 +404,7 @@ run_exp_while = Fn(S, 'run_exp_while', ret='r', pre_rewrites=RW,
     ghost_args={'run_exp_test_br': 'Tracked(wl)'},
     requires=[('C15.pre.while.fresh_log', 'old(lg).started == 0 && old(lg).checks.len() == 0 && old(wl).tried.len() == 0 && old(wl).calls.len() == 0')],
     let_types={'cr_list': 'Vec<CommandResult>'},
-    ensures=[('C15.while.no_round_after_a_failing_command_under_set_e', 'nothing_after_stop(*final(lg))'),
+    ensures=[('C15.while.no_round_after_a_failing_command_under_set_e', 'nothing_after_stop(*final(lg)) && final(lg).node == pair_while'),
              # (C14) every round is one call of the branch runner on the while node itself -- which runs the test first and the body only if it passed -- as a loop body
              ('C14.while.the_test_is_run_again_before_every_round', 'while_rounds(*final(wl), pair_while)'),
              # (C14) a round follows exactly when the test passed, no `break` was met (a `continue` goes on to the next test) and no failure under `set -e` ended the script
@@ -407,12 +413,12 @@ run_exp_while = Fn(S, 'run_exp_while', ret='r', pre_rewrites=RW,
               '&& (!final(wl).tried.last().0 || final(wl).tried.last().2 || stop_spec(r@, *final(sh)))')],
     loops={0: Loop(invariant_except_break=[('C15.inv.while.no_failure_so_far', 'no_stop_so_far(*lg)'),
                                            ('C14.inv.while.every_round_so_far_passed_without_break', 'while_goes_on(*wl, wl.tried.len() as int)')],
-                   invariant=[('C11+C15.inv.while.the_results_of_every_round_are_kept_in_order', 'cr_list@ == g_all'),
+                   invariant=[('C11+C15.inv.while.the_results_of_every_round_are_kept_in_order', 'cr_list@ == g_all && lg.node == pair_while'),
                               ('C14.inv.while.rounds', 'while_rounds(*wl, pair_while)')],
                    ensures=[('C15.while.loop_left_with_nothing_after_a_failure', 'nothing_after_stop(*lg)'),
                             ('C14.while.loop_left_at_the_first_round_that_failed_its_test_or_met_break',
                              'wl.tried.len() >= 1 && while_goes_on(*wl, wl.tried.len() - 1) && (!wl.tried.last().0 || wl.tried.last().2 || stop_spec(cr_list@, *sh))')])},
-    hints={'fn-entry': 'RAW: let ghost mut g_all: Seq<CommandResult> = Seq::empty();',
+    hints={'fn-entry': 'RAW: let ghost mut g_all: Seq<CommandResult> = Seq::empty(); proof { note_entry(lg, pair_while, true); }',
            'after-call:run_exp_test_br': 'g_all = g_all + _cr_list@; note_branch(wl, passed, _cont, _brk);',
            'loop-0-body-entry': 'note_start(lg);',
            'before-text:if !passed || _brk': 'note_check(lg, stop_spec(cr_list@, *sh));'},
@@ -487,7 +493,7 @@ test_br = Fn(S, 'run_exp_test_br', rename='run_exp_test_br_real', ret='r',
 exp_if = Fn(S, 'run_exp_if', rename='run_exp_if_real', ret='r', pre_rewrites=RW,
     add_params='Tracked(il): Tracked<&mut IfLog>',
     ghost_args={'run_exp_test_br': 'Tracked(il)'},
-    requires=[('C15.pre.if.fresh_log', 'old(il).tried.len() == 0 && old(il).calls.len() == 0')],
+    requires=[('C14+C15.pre.if.fresh_log', 'old(il).tried.len() == 0 && old(il).calls.len() == 0')],
     let_types={'cr_list': 'Vec<CommandResult>'},
     loop_kinds={0: 'value', (0, 'clone'): 'vx_clone_pair(&{})'},
     ensures=[
@@ -501,10 +507,10 @@ exp_if = Fn(S, 'run_exp_if', rename='run_exp_if_real', ret='r', pre_rewrites=RW,
          'final(il).calls.len() == final(il).tried.len() && forall|k: int| 0 <= k < final(il).calls.len() ==> (#[trigger] final(il).calls[k]) == (pair_children(pair_if)[k], in_loop)'),
         ('C14.if.without_a_branch_there_is_no_continue_or_break', 'final(il).tried.len() == 0 ==> (!r.1 && !r.2)'),
     ],
-    loops={0: Loop(invariant_except_break=[('C15.inv.if.tried', 'il.tried.len() == __i0 && none_passed(*il)')],
-                   invariant=[('C11+C15.inv.if.the_results_of_every_branch_tried_are_kept_in_order', 'cr_list@ == g_all'), ('C15.inv.if.flags', 'il.tried.len() <= __v0@.len() && __v0@ == pair_children(pair_if) && (il.tried.len() > 0 ==> (met_continue == il.tried.last().1 && met_break == il.tried.last().2))'),
+    loops={0: Loop(invariant_except_break=[('C14+C15.inv.if.tried', 'il.tried.len() == __i0 && none_passed(*il)')],
+                   invariant=[('C11+C15.inv.if.the_results_of_every_branch_tried_are_kept_in_order', 'cr_list@ == g_all'), ('C14+C15.inv.if.flags', 'il.tried.len() <= __v0@.len() && __v0@ == pair_children(pair_if) && (il.tried.len() > 0 ==> (met_continue == il.tried.last().1 && met_break == il.tried.last().2))'),
                               ('C14.inv.if.calls', 'il.calls.len() == il.tried.len() && (il.tried.len() == 0 ==> (!met_continue && !met_break)) && forall|k: int| 0 <= k < il.calls.len() ==> (#[trigger] il.calls[k]) == (__v0@[k], in_loop)')],
-                   ensures=[('C15.if.loop_left_at_the_end_or_at_the_first_branch_that_passed',
+                   ensures=[('C14+C15.if.loop_left_at_the_end_or_at_the_first_branch_that_passed',
                              'only_the_last_passed(*il) && (il.tried.len() == __v0@.len() || (il.tried.len() > 0 && il.tried.last().0))')])},
     hints={'fn-entry': 'RAW: let ghost mut g_all: Seq<CommandResult> = Seq::empty();',
            'after-call:run_exp_test_br': 'note_branch(il, passed, _cont, _brk); g_all = g_all + _cr_list@;'},
